@@ -529,7 +529,7 @@ CORRUPT = {"C01": ("outcome", lambda e: e.update(outcome="panic") or e), "C02": 
 def selftest(prop, rep, events):
     """corrupt one recorded field owned by this property in a recorded event and require TLC to flag that event"""
     field, special = CORRUPT[prop]
-    sample = [e for e in events if e["ev"] == "decode"][:3000]
+    sample = [e for e in events if e["ev"] == "decode"]
     idx = None
     for i, e in enumerate(sample):
         if special is not None and e["outcome"] == "ok":
@@ -549,4 +549,5 @@ def selftest(prop, rep, events):
         else:
             e["out"][field] = e["out"][field] ^ 1
         return e
-    core.anti_vacuity(rep, "Trace_Decode", sample[:idx + 50], [(idx, mut, prop)], name=f"{prop}-selftest")
+    lo = max(0, idx - 5)
+    core.anti_vacuity(rep, "Trace_Decode", sample[lo:idx + 40], [(idx - lo, mut, prop)], name=f"{prop}-selftest")
